@@ -1,10 +1,12 @@
 pub mod hist;
 pub mod desc;
+pub mod vec;
 use crate::Area;
 pub fn lookup(name: &str) -> Option<Box<dyn Area>> {
     match name {
         "hist" => Some(Box::new(hist::HistArea)),
         "desc" => Some(Box::new(desc::DescArea)),
+        "vec" => Some(Box::new(vec::VecArea)),
         _ => None,
     }
 }
